@@ -191,7 +191,11 @@ qrnzcnt(int_t neqns, int_t adjlen, int_t *xadj, int_t *adjncy, int_t *zfdperm,
     for (k = 0; k < neqns; ++k) {
 	parent = etpar[k];
 	++nchild[parent];
-	if ( k != 0 && nchild[k] >= 2 ) {
+	if ( k != 0 && nchild[k] != 1 ) {
+	    /* k has several children, or none: a column without children is
+	       either the first nonzero column of a row (detected below as
+	       well) or an empty column - in both cases it cannot continue
+	       the supernode of column k-1, which is not its child */
 	    part_super_h[xsup] = k - xsup;
 	    xsup = k;
 	}
